@@ -10,7 +10,11 @@
 //!
 //! * oracle (independent of the model): every frame must equal the documented table
 //!   `key -> public formatter (public getter)` evaluated on the getters read after the call; custom
-//!   keys must show the state and exactly the tick/reset events of the bar.
+//!   keys must show the state and exactly the tick/reset events of the bar.  `{spinner}` = the
+//!   current tick string with every TAB replaced by the bar's tab width in blanks (the oracle keeps
+//!   the tab width from `with_tab_width` / `set_tab_width` itself); tick strings WITH TABs are
+//!   generated (corpus:spinner-tab, `base_ticks`, `tab_ticks`), since /repo fix 6ff82af routes the
+//!   spinner arm through `TabRewriter` (style.rs:277-279).
 //! * correspondence: the same history is replayed by `Keys.v` (`keys_check`); the formatters are
 //!   given to the model as a finite table computed here with the real public formatters.
 use indicatif::style::ProgressTracker;
@@ -262,6 +266,7 @@ fn doc_key(
     fraction: f32,
     tick: u64,
     ticks: &[String],
+    tab: usize,
     t: &mut Table,
     alias_bad: &mut Option<String>,
 ) -> Option<String> {
@@ -321,13 +326,13 @@ fn doc_key(
         "binary_bytes_per_sec" => t.add(4, rate as u128, 0, BinaryBytes(rate).to_string()) + "/s",
         "msg" => g.message.clone(),
         "prefix" => g.prefix.clone(),
+        // the current tick string (the last one once finished); a TAB in it is shown as the bar's
+        // tab width in blanks, like a TAB in a message or prefix (the oracle's own `expand`, from
+        // the oracle's own bookkeeping of with_tab_width / set_tab_width)
         "spinner" => {
             let n = ticks.len();
-            if g.fin {
-                ticks[n - 1].clone()
-            } else {
-                ticks[(tick % (n as u64 - 1)) as usize].clone()
-            }
+            let cur = if g.fin { &ticks[n - 1] } else { &ticks[(tick % (n as u64 - 1)) as usize] };
+            expand(cur, tab)
         }
         "bar" => {
             let w = width.unwrap_or(20) as usize;
@@ -393,7 +398,7 @@ fn expected_line(
                     None if *k == "wide_bar" || *k == "wide_msg" => {
                         (String::new(), format!("key:{k}"), Some(*k))
                     }
-                    None => match doc_key(k, *w, g, fraction, bk.tick, &cfg.ticks, t, alias_bad) {
+                    None => match doc_key(k, *w, g, fraction, bk.tick, &cfg.ticks, bk.tab, t, alias_bad) {
                         Some(x) => (x, format!("key:{k}"), None),
                         None => (String::new(), "key:unknown".to_string(), None),
                     },
@@ -940,6 +945,16 @@ fn run_case(s: &mut Session, cfg: &Cfg, ops: &[(u64, Op)], tag: &str) {
             if !g.per_sec.is_finite() {
                 s.count("frame:per_sec-nonfinite");
             }
+            if has("spinner") {
+                let n = cfg.ticks.len();
+                let cur = if g.fin { &cfg.ticks[n - 1] } else { &cfg.ticks[(bk.tick % (n as u64 - 1)) as usize] };
+                if cur.contains('\t') {
+                    s.count("frame:spinner-with-tab");
+                    s.count(&format!("frame:spinner-with-tab:tab={}", bk.tab));
+                } else {
+                    s.count("frame:spinner-tab-free");
+                }
+            }
         }
         if is_pos && !allowed {
             s.count("pos-update-throttled");
@@ -1035,6 +1050,32 @@ fn run_case(s: &mut Session, cfg: &Cfg, ops: &[(u64, Op)], tag: &str) {
 // ---------------------------------------------------------------- generators
 fn ascii_ticks(n: usize) -> Vec<String> {
     (0..n).map(|i| format!("t{i}")).collect()
+}
+
+/// tick strings some of which contain TAB characters (leading, trailing, inner, alone, doubled):
+/// `{spinner}` writes them through the TabRewriter with the bar's tab width (style.rs:277-279)
+fn tab_ticks(r: &mut Rng, n: usize) -> Vec<String> {
+    let mut v: Vec<String> = (0..n)
+        .map(|i| match r.below(7) {
+            0 => "\t".to_string(),
+            1 => format!("t{i}\t"),
+            2 => format!("\tt{i}"),
+            3 => format!("a\tb{i}"),
+            4 => "\t\t".to_string(),
+            _ => format!("t{i}"),
+        })
+        .collect();
+    if !v.iter().any(|x| x.contains('\t')) {
+        let i = r.below(n as u64) as usize;
+        v[i] = format!("\tt{i}");
+    }
+    v
+}
+
+/// the tick strings of the systematic streams (corpus, singles, grid): tab-free and TAB-holding
+/// strings alternate, the final one ends with a TAB
+fn base_ticks() -> Vec<String> {
+    vec!["t0".into(), "t1\tx".into(), "\tt2".into(), "t3\t".into()]
 }
 
 fn arg(r: &mut Rng) -> u64 {
@@ -1245,6 +1286,9 @@ fn gen_cfg(r: &mut Rng) -> (Cfg, bool, bool) {
     let ascii = any_wide || any_width;
     let ticks = if !ascii && r.chance(1, 3) {
         "⠁⠁⠉⠙⠚⠒⠂⠂⠒⠲⠴⠤⠄⠄⠤⠠⠠⠤⠦⠖⠒⠐⠐⠒⠓⠋⠉⠈⠈ ".chars().map(|c| c.to_string()).collect()
+    } else if r.chance(2, 5) {
+        let n = r.range(2, 6) as usize;
+        tab_ticks(r, n)
     } else {
         ascii_ticks(r.range(2, 6) as usize)
     };
@@ -1319,7 +1363,7 @@ fn base_cfg(template: Vec<Part>, len0: Option<u64>, width: u16) -> Cfg {
     }
     Cfg {
         len0,
-        ticks: ascii_ticks(4),
+        ticks: base_ticks(),
         tab: 8,
         customs,
         template,
@@ -1484,6 +1528,44 @@ fn corpus(s: &mut Session) {
         let mut cfg = base_cfg(tpl, Some(10), w);
         cfg.nul = true;
         run_case(s, &cfg, &[(0, Op::SetMessage("m".into())), (0, Op::SetPrefix("a\0b".into())), (0, Op::Inc(1))], "corpus:nul-carry");
+    }
+    // tick strings with TABs (fix 6ff82af: `{spinner}` goes through the TabRewriter with the bar's
+    // tab width, which set_tab_width changes between draws).  First the audit's witness (AUDIT3
+    // finding 3: ticks ["\ta","b"], tab 4, "{spinner}|" must draw "    a|").
+    let mut cfg = base_cfg(vec![k("spinner"), l("|"), k("probe")], Some(10), 1000);
+    cfg.ticks = vec!["\ta".into(), "b".into()];
+    cfg.tab = 4;
+    run_case(s, &cfg, &[(0, Op::Tick), (0, Op::ForceDraw), (0, Op::Finish(Fin::AndLeave))], "corpus:spinner-tab");
+    let tab_ops = || {
+        vec![
+            (0, Op::Tick),
+            (0, Op::Tick),
+            (0, Op::SetTabWidth(2)),
+            (2_000_000, Op::Inc(1)),
+            (0, Op::SetTabWidth(0)),
+            (0, Op::ForceDraw),
+            (0, Op::Tick),
+            (0, Op::SetTabWidth(13)),
+            (0, Op::SetMessage("m\tx".into())),
+            (0, Op::Finish(Fin::AndLeave)),
+            (0, Op::SetTabWidth(1)),
+            (0, Op::ResetAll),
+            (0, Op::Tick),
+        ]
+    };
+    for (tpl, w) in [
+        // alone, padded to a width (measured after the expansion), beside a message with a TAB
+        (vec![l("<"), k("spinner"), l(">"), kw("spinner", 6), l("|"), k("msg"), k("probe")], 1000u16),
+        // the expanded tick string takes columns from the wide element of its line
+        (vec![k("spinner"), l(" "), k("wide_msg"), k("probe")], 20),
+        (vec![l("["), k("wide_bar"), l("]"), k("spinner"), k("probe")], 24),
+        // on the second line of a multi-line template; a line with nothing but the spinner
+        (vec![k("pos"), l("/"), k("len"), k("probe"), nl(), k("spinner"), l("|"), nl(), k("spinner")], 1000),
+    ] {
+        let mut cfg = base_cfg(tpl, Some(10), w);
+        cfg.ticks = vec!["\ta".into(), "b\t".into(), "c".into(), "\t".into()];
+        cfg.tab = 4;
+        run_case(s, &cfg, &tab_ops(), "corpus:spinner-tab");
     }
     // finish at elapsed == 0: per_sec is 0/0 or x/0
     let cfg = base_cfg(t(&[("per_sec", None), ("bytes_per_sec", None), ("per_sec", Some(2))]), Some(10), 1000);
@@ -1679,7 +1761,9 @@ fn main() {
     s.rule = "a case = style (template of 1..3 lines - 2 of 5 random templates have 2..3 lines, with empty lines, a \
               trailing newline, wide_msg / wide_bar on final and non-final lines and placeholders on the lines after them - \
               of 0..12 placeholders from the 28 documented keys, unknown keys, custom keys incl. \
-              ones shadowing built-in names; optional width; at most one wide key per line) + history of 0..14 public ProgressBar \
+              ones shadowing built-in names; optional width; at most one wide key per line; 2..6 tick strings, in 2 of 5 random \
+              styles and in every systematic case some of them containing TAB characters, which {spinner} must show as the bar's \
+              current tab width in blanks) + history of 0..14 public ProgressBar \
               calls (tick/inc/dec/set_position/set_length/inc_length/dec_length/unset_length/set_message/set_prefix/\
               finish*/abandon*/reset*/force_draw/update/set_tab_width), each preceded by a mock clock advance from \
               {0,1ns,..,1ms,..,1s,..,27h}; every frame drawn into the Spy terminal is compared with public \
